@@ -95,7 +95,7 @@ func (pr *ProtoArray) getNode(index NodeIndex) (*ProtoNode, error) {
 		return nil, invalidIndexErr
 	}
 	i := index - pr.indexOffset
-	if i > NodeIndex(len(pr.nodes)) {
+	if i >= NodeIndex(len(pr.nodes)) {
 		return nil, invalidIndexErr
 	}
 	return &pr.nodes[i], nil
